@@ -467,3 +467,64 @@ Definition check_ecase (c : ecase) : bool * bool :=
          | Some e' => verdict_eqb (e_verdict c) (spec_verdict (e_spec c) e')
          | None => false
          end ).
+
+(** ** Contexts that take a SIMPLE expression as the last argument of a primitive ([line-num IM],
+    [contents TM], [filter LM], [every line : LM], [dir-contents FSM], [-selection FM FSM], ...):
+    in [CTX ARG op REST] the operator does not belong to ARG — the structure is [( CTX ARG ) op REST].
+    The primitive's [parse_arguments] runs the simple parser of the argument's type on the same token
+    stream; the outer parser continues where it stopped.  So the model is the composition: the inner
+    simple parser on what follows the context, then the outer parser on the context (one primitive
+    word, [W_CTX]) followed by what the inner parser left. *)
+Definition W_CTX : N := 150.
+
+Record ctxcase := CtxCase {
+  x_outer_matcher : bool;
+  x_inner_matcher : bool;
+  x_tokens : list tok;                       (* what follows the context primitive *)
+  x_gen : option (dexpr * list tok);         (* x_tokens = render d ++ post *)
+  x_obs : option (expr * expr * list tok) }. (* argument read back, outer structure with the context as
+                                                [ELeaf W_CTX], unconsumed tokens; None = syntax error *)
+
+Definition gram (matcher : bool) : grammar := if matcher then matcher_grammar else transformer_grammar.
+
+Definition model_ctx (c : ctxcase) : option (expr * expr * list tok) :=
+  match parse_simple (gram (x_inner_matcher c)) true false (x_tokens c) with
+  | Ok e_in r_in =>
+      match parse_full (gram (x_outer_matcher c)) true false (TW false W_CTX :: r_in) with
+      | Ok e_out r_out => Some (e_in, e_out, r_out)
+      | _ => None
+      end
+  | _ => None
+  end.
+
+Definition check_ctxcase (c : ctxcase) : bool * bool :=
+  let gi := gram (x_inner_matcher c) in
+  let go := gram (x_outer_matcher c) in
+  ( match model_ctx c, x_obs c with
+    | Some (a, b, r), Some (a', b', r') => expr_eqb a a' && expr_eqb b b' && list_eqb tok_eqb r r'
+    | None, None => true
+    | _, _ => false
+    end,
+    match x_gen c with
+    | Some (d, post) =>
+        list_eqb tok_eqb (x_tokens c) (render d ++ post) &&
+        match x_obs c with
+        | Some (e_in, e_out, r) =>
+            (* the argument is the simple expression, whatever follows it ... *)
+            (if rendering_ok gi true false d then expr_eqb (flatten e_in) (flatten (erase d))
+             else match ref_parse gi true (render d) with
+                  | Some e => expr_eqb e (flatten e_in)
+                  | None => false
+                  end) &&
+            (* ... and what follows it is read by the outer grammar with the context as ONE operand *)
+            match consumed (TW false W_CTX :: post) r with
+            | Some pre => match ref_parse go false pre with
+                          | Some e => expr_eqb e (flatten e_out)
+                          | None => false
+                          end
+            | None => false
+            end
+        | None => negb (rendering_ok gi true false d)   (* a permitted rendering must be accepted *)
+        end
+    | None => true
+    end ).
